@@ -1,4 +1,7 @@
 /* C13 - defer_rcu(): calls run once, in order, with exact arguments, after a grace period */
+#ifdef GP_WHITEBOX
+#include "vflavor_spec.c"	/* white-box build: the per-thread queue indices can be started from a non-initial, reachable value */
+#endif
 #include "vrt.h"
 #define URCU_API_MAP
 #if defined(FLAVOR_SPEC)
@@ -93,6 +96,11 @@ static void run_seq(void)
 
 	rcu_register_thread();
 	VRT_CHECK(rcu_defer_register_thread() == 0, "rcu_defer_register_thread failed");
+#ifdef GP_WHITEBOX
+	/* param start_idx: the thread has already queued (and run) that many slots: head == tail == start_idx, so that the indices of
+	 * this sequence straddle the wrap-around of the unsigned long counters */
+	URCU_TLS(defer_queue).head = URCU_TLS(defer_queue).tail = (unsigned long)vrt_param("start_idx", 0);
+#endif
 	for (i = 0; i < len; i++) {
 		int c = vrt_choose(3 * 4 + 3);
 
